@@ -1894,11 +1894,22 @@ class Filter(Blockwise):
                     # sum is in the predicate of parent, then removing self would
                     # alter the condition of parent because the sum changes, this is
                     # only relevant in broadcasting cases
-                    predicate = parent.predicate.substitute(self, self.frame)
                     # Column or index projections may already have been pushed
                     # below this filter; those filtered operands (same row
                     # filter) have to be rewritten as well, otherwise the
                     # squashed predicate mixes filtered and unfiltered operands
+                    same_rows = [
+                        e
+                        for e in parent.predicate.find_operations(Filter)
+                        if e.predicate._name == self.predicate._name
+                    ]
+                    if _used_below_non_rowwise(
+                        parent.predicate, {self._name} | {e._name for e in same_rows}
+                    ):
+                        # a reduction (or cumulative / window operation) over the
+                        # filtered rows changes when the filter is removed
+                        return
+                    predicate = parent.predicate.substitute(self, self.frame)
                     for e in list(predicate.find_operations(Filter)):
                         if e.predicate._name == self.predicate._name:
                             predicate = predicate.substitute(e, e.frame)
@@ -3844,6 +3855,38 @@ def _replace_common_or_components(expr, or_components):
     return outer_component & or_component
 
 
+def _non_rowwise_types():
+    from dask_expr._cumulative import CumulativeAggregations, CumulativeFinalize
+
+    # reductions, cumulative and window operations (and their lowered forms):
+    # their value for a row depends on which other rows are present
+    return (
+        ApplyConcatApply,
+        TreeReduce,
+        ShuffleReduce,
+        CumulativeAggregations,
+        CumulativeFinalize,
+        MapOverlap,
+        CreateOverlappingPartitions,
+    )
+
+
+def _used_below_non_rowwise(predicate, names):
+    """Whether one of the expressions ``names`` is an input of a non row-wise
+    operation inside ``predicate``"""
+    non_rowwise = _non_rowwise_types()
+    stack = [(predicate, False)]
+    while stack:
+        e, below = stack.pop()
+        if e._name in names:
+            if below:
+                return True
+            continue
+        below = below or isinstance(e, non_rowwise)
+        stack.extend((dep, below) for dep in e.dependencies())
+    return False
+
+
 def _check_dependents_are_predicates(
     expr, other_names, parent: Expr, dependents, allow_reduction=True
 ):
@@ -3874,26 +3917,7 @@ def _check_dependents_are_predicates(
         )
 
         if not allow_reduction:
-            from dask_expr._cumulative import (
-                CumulativeAggregations,
-                CumulativeFinalize,
-            )
-
-            # cumulative and window operations (and their lowered forms) are not
-            # row-wise either: their value for a row depends on which other
-            # rows are present
-            if isinstance(
-                e,
-                (
-                    ApplyConcatApply,
-                    TreeReduce,
-                    ShuffleReduce,
-                    CumulativeAggregations,
-                    CumulativeFinalize,
-                    MapOverlap,
-                    CreateOverlappingPartitions,
-                ),
-            ):
+            if isinstance(e, _non_rowwise_types()):
                 return False
 
         allowed_expressions.add(e._name)
